@@ -6,6 +6,10 @@ ROOT = os.path.dirname(os.path.abspath(__file__))
 BASE_NOTE = "Trusted base: the harness's own reference model/oracle for this property (written from GitHub's documentation, not from actionlint's code), pgregory.net/rapid v1.3.0, the Go toolchain. 'Held' means held on every generated case; absence of violations outside the explored region is not established."
 
 CHECKS = {
+ "C03": dict(
+   technique="rapid-generated clean workflows from an independent workflow-syntax model; exhaustive per-workflow enumeration of scalar leaves x malformed placeholder forms; expectation (diagnostic at the scalar, syntax kind for template leaves) derived from the model",
+   text="For every generated clean workflow (all sections including rare and expression-valued forms, random layout/quoting) every scalar value leaf is replaced in turn by each malformed ${{ }} form and the linter must report at that scalar (an expression syntax error where the model says the value is a template). The model, not actionlint, decides which leaves exist and which are templates.",
+   design="DESIGN.md section 5, C03"),
  "C04": dict(
    technique="exhaustive enumeration of short token sequences and character strings + rapid random trees/edits/literals, differential against a reference lexer and precedence-climbing parser; structure compared modulo associativity",
    text="Generated-input search against an independent reference grammar: all token sequences <=5 (6) tokens and all strings <=4 (5) characters over the lexically relevant alphabet are parsed by actionlint and by the harness's reference parser; verdict (accept/reject), tree structure modulo associativity, literal values and error offset/line/column are compared; random deep trees with known structure, single-token edits, number/string literal fuzz and a sample through the linter extend beyond the exhaustive bound.",
@@ -14,6 +18,14 @@ CHECKS = {
    technique="rapid metamorphic testing: (typing environment, expression, loosening) triples; accepted under the environment => accepted under the loosened one; plus clean-workflow variant with fromJSON-defined matrix parts",
    text="Metamorphic relation over generated typing environments and expressions: every expression accepted by the semantic checker must still be accepted after one type occurrence is replaced by any or a closed object is opened; the same relation is checked end to end on generated clean workflows whose matrix row/include/whole matrix is replaced by an expression.",
    design="DESIGN.md section 5, C06"),
+ "C11": dict(
+   technique="rapid grammar-based generation of access chains over the documented untrusted paths and trusted relatives, in all spellings and embeddings; differential against a stateless top-down taint model over the harness's reference AST; positions checked through the linter",
+   text="Expressions built from the documented untrusted paths (and trusted siblings/prefixes/extensions) with random per-segment spelling, array index/filter forms and embeddings are checked at the semantic-checker level and through the linter in script and non-script positions; the reported path sets and columns must equal those computed by an independent taint model on the harness's own parse tree.",
+   design="DESIGN.md section 5, C11"),
+ "C13": dict(
+   technique="rapid-generated clean workflows (optionally with seeded sibling errors) x every mapping x {foreign key, duplicate key, removed mandatory key, removal next to a misplaced sibling}; expected report positions from the position-recording emitter and the section model",
+   text="For every mapping of generated workflows, insertion of a foreign key (fresh, from another section, letter-case variant), duplication of a key (also in other letter case for case-insensitive user-named mappings) and removal of each mandatory key are applied; the model predicts a syntax-check diagnostic at the key (item for schedule), at the repetition, or a new diagnostic for the removal, and all diagnostics of the base must survive.",
+   design="DESIGN.md section 5, C13"),
  "C17": dict(
    technique="exhaustive enumeration of strings <=5 (6) characters over a 19-character alphabet + rapid random longer strings against a three-valued reference validator; implication, column and named-character invariants; sampled through the linter",
    text="All short strings over the special/ordinary/ref-forbidden/whitespace/control/non-ASCII representatives are validated as ref and as path filter and compared with a reference validator written from the filter-pattern cheat sheet and git's ref character rules (strings the documentation leaves open are not compared); ref-accept implies path-accept, columns lie in the pattern on the character the message names, and linter positions equal scalar start + column.",
